@@ -67,7 +67,7 @@ def run(ctx):
     # R3 per-well forwarding
     c07.forwarding(ctx, 'C17.R3', only=('remove',))
     # R4 trash accounting
-    trash(ctx)
+    trash(ctx, 'C17.R4')
     return {'explanation': 'R1: the kept contents are a dict comprehension over the container\'s own items whose key and '
                            'value are the bare loop variables (amounts untouched) and whose filter excludes exactly the '
                            'entries whose substance or class equals the selector. R2: the volume is recomputed from the '
@@ -121,7 +121,7 @@ def _item_role(e):
     return None
 
 
-def trash(ctx):
+def trash(ctx, rule='C17.R4'):
     model = ctx.model
     bake = model.func('Recipe.bake')
     ff = ctx.flow('Recipe.bake')
@@ -144,12 +144,12 @@ def trash(ctx):
             any(isinstance(n, Ref) and n.name == 'step.to[0]' for n in srcs)
         if plate_branch:
             ok = post or sel
-            ctx.ob('C17.R4', bake, stmt.lineno, 'trash recorded for a plate / slice depends on the addressed wells',
+            ctx.ob(rule, bake, stmt.lineno, 'trash recorded for a plate / slice depends on the addressed wells',
                    ok, fact=f"value depends on pre-state: {pre}, post-state: {post}, selection: {sel}",
                    why='the discarded amount is summed over all wells of the pre-state for substances that vanished '
                        'from the whole plate: removing from part of a plate records nothing (or too much)',
                    key='plate trash independent of the selection')
         else:
-            ctx.ob('C17.R4', bake, stmt.lineno, 'trash recorded for a container is the pre-state amount of each removed '
+            ctx.ob(rule, bake, stmt.lineno, 'trash recorded for a container is the pre-state amount of each removed '
                                                 'substance', pre, fact=f"value depends on pre-state: {pre}",
                    why='the discarded amount is not taken from the state before the removal', key='container trash source')
